@@ -789,12 +789,12 @@ func TestVerifC20(t *testing.T) {
 	} else {
 		cases = append(cases, corpus...)
 		r := vNewRand(vSeed())
-		n := vN(160, 1600)
+		n := vN(120, 1200)
 		for i := 0; i < n; i++ {
 			cases = append(cases, c20Gen(r.Fork()))
 		}
 	}
-	nl := 8
+	nl := 10
 	if len(cases) < nl {
 		nl = 1
 	}
